@@ -61,6 +61,7 @@ type Case struct {
 	Msg       string   `json:"msg"`
 	Details   []Detail `json:"details"`
 	After     int      `json:"after"` // replies sent before the error (server streaming); -1 = unary method
+	JSONSub   bool     `json:"json_sub"` // gRPC-web: the message sub-codec is +json instead of +proto (status details stay a binary google.rpc.Status)
 	Gzip      bool     `json:"gzip"`  // gRPC family: the call negotiates per-message gzip (request and replies compressed)
 }
 
@@ -332,15 +333,19 @@ func Check(c Case) []evid.Violation {
 	case "grpcweb", "grpcwebtext":
 		hdr := http.Header{}
 		reqBody := grpcFrame()
+		payload, sub := []byte{0x18, 0x07}, "+proto"
+		if c.JSONSub {
+			payload, sub = body(), "+json"
+		}
+		reqBody = drive.GRPCFrame(payload, c.Gzip)
 		if c.Gzip {
 			hdr.Set("Grpc-Encoding", "gzip")
-			reqBody = drive.GRPCFrame([]byte{0x18, 0x07}, true)
 		}
 		if c.Transport == "grpcwebtext" {
-			hdr.Set("Content-Type", "application/grpc-web-text+proto")
+			hdr.Set("Content-Type", "application/grpc-web-text"+sub)
 			reqBody = []byte(base64.StdEncoding.EncodeToString(reqBody))
 		} else {
-			hdr.Set("Content-Type", "application/grpc-web+proto")
+			hdr.Set("Content-Type", "application/grpc-web"+sub)
 		}
 		res := drive.Serve(mux, drive.Request("POST", method, "", hdr, bytes.NewReader(reqBody), -1))
 		if res.Panic != nil {
@@ -509,6 +514,9 @@ func genCase(t *rapid.T, transports []string) Case {
 	if strings.HasPrefix(c.Transport, "grpc") {
 		c.Gzip = rapid.IntRange(0, 2).Draw(t, "gzip") == 0
 	}
+	if strings.HasPrefix(c.Transport, "grpcweb") {
+		c.JSONSub = rapid.IntRange(0, 2).Draw(t, "jsonSub") == 0
+	}
 	if c.Transport == "ws" && c.After < 0 {
 		c.After = 0
 	}
@@ -545,8 +553,11 @@ func record(c Case) {
 	if c.Gzip {
 		cl = append(cl, "gzip-negotiated")
 	}
+	if c.JSONSub {
+		cl = append(cl, "json-sub-codec")
+	}
 	if needsEsc || len(c.Details) > 0 || c.Code > 16 || c.After > 0 {
-		key = fmt.Sprintf("%s|%d|%q|%v|%d|%v", c.Transport, c.Code, c.Msg, c.Details, c.After, c.Gzip)
+		key = fmt.Sprintf("%s|%d|%q|%v|%d|%v|%v", c.Transport, c.Code, c.Msg, c.Details, c.After, c.Gzip, c.JSONSub)
 	}
 	evid.Eval(key, cl...)
 }
